@@ -20,7 +20,7 @@ RULE = (
 )
 ASSUMPTIONS = [
     "annotation values are compared as strings (symbol names, addends, attribute lists, directive tuples)",
-    "padding entries are generated only through the comments/padding tables the builder creates; cfiDirectives evaluation is C08",
+    "padding entries are generated only through the comments/padding tables the builder creates; the cfiDirectives table is judged both as a table (entries travel with their bytes) and, on a share of C08's cases, through the unwind state its directives give every instruction",
 ]
 TRUSTED = ["harness/emodify.py, harness/irdump.py"]
 
@@ -124,7 +124,53 @@ def kept_placeholder(rng):
     return {"isa": "X64", "ff": "ELF", "text": text, "externs": ["ext_a"], "edits": edits}
 
 
+class _CfiCtx:
+    """cfiDirectives is one of the offset-keyed tables: the CFI run of C08 (directives judged through the unwind state
+    they give every instruction, procedures opened and closed once) is run here on a share of its cases; the two
+    findings recorded for C08 stay C08's"""
+
+    def __init__(self, ctx):
+        self.__dict__["_c"] = ctx
+
+    def __getattr__(self, k):
+        return getattr(self._c, k)
+
+    def __setattr__(self, k, v):
+        setattr(self._c, k, v)
+
+    def violation(self, sig, what, case):
+        import common
+
+        known = {f.get("sig") for f in common.load_known_findings().get("findings", []) if f.get("property") == "C08"}
+        if sig in known:
+            self._c.count("c08-recorded-finding-seen")
+            return
+        self._c.violation(sig.replace("C08:", "C04:cfi:", 1), what, dict(case, cfi_case=True) if isinstance(case, dict) else case)
+
+    def mismatch(self, what, case):
+        self._c.mismatch(what, dict(case, cfi_case=True) if isinstance(case, dict) else case)
+
+
+def run_cfi(ctx, n):
+    import emodify
+    from props import c08
+
+    cc = _CfiCtx(ctx)
+    pending = []
+    for k in range(n):
+        if k % 10 == 0:
+            case = c08.first_block_deleted(ctx.rng)
+        else:
+            case = c08.decorate(emodify.gen_case(ctx.rng), ctx.rng)
+            if ctx.rng.random() < 0.12:
+                case = c08.tail_patch(case, ctx.rng)
+        ctx.count("cfi-directive-cases")
+        c08.check_case(cc, case, pending)
+    c08.flush(cc, pending)
+
+
 def run(ctx):
+    run_cfi(ctx, ctx.budget(400, 8000))
     camp = LE.Campaign(ctx, "C04")
     for _ in range(ctx.budget(25, 500)):
         ctx.count("kept-placeholder")
@@ -137,7 +183,13 @@ def run(ctx):
 
 def replay(ctx, payload):
     case = payload.get("case", payload)
-    if isinstance(case, dict) and case.get("isa_case"):
+    if isinstance(case, dict) and case.get("cfi_case"):
+        from props import c08
+
+        pending = []
+        c08.check_case(_CfiCtx(ctx), {k: v for k, v in case.items() if k != "cfi_case"}, pending)
+        c08.flush(_CfiCtx(ctx), pending)
+    elif isinstance(case, dict) and case.get("isa_case"):
         check_isa(ctx, case)
     else:
         LE.replay(ctx, "C04", payload)
